@@ -88,9 +88,11 @@ func (*Scanner).currentRange
   inline
 
 // reporting a diagnostic does not touch the scanner
-func (*Scanner).err [C13]
+func (*Scanner).err [C13, C19]
   requires s != nil
-  modifies parser.parser.errored
+  modifies parser.parser.errored, g:$deliveredErr
+  // every scanner diagnostic is error-level and is handed to the handler
+  ensures $deliveredErr
 
 func (*Scanner).newToken [C13, C03]
   safe
